@@ -230,7 +230,7 @@ class Module:
         # into their call sites, in memory only (see sa/inline.py)
         from . import dispatch, inline, relocate
         # dispatch tables the reference tree does not know are expanded back into conditional chains (see sa/dispatch.py)
-        self.expanded = dispatch.expand(self.tree, name) + dispatch.untuple_records(self.tree, name) + dispatch.inline_new_constants(self.tree, name) + dispatch.anyall_to_loops(self.tree, name)
+        self.expanded = dispatch.expand(self.tree, name) + dispatch.untuple_records(self.tree, name) + dispatch.inline_new_constants(self.tree, name) + dispatch.anyall_to_loops(self.tree, name) + dispatch.format_to_fstrings(self.tree, name)
         # functions the reference tree knows under another name / nesting are put back first (see sa/relocate.py)
         self.relocated = relocate.restore(self.tree, name)
         self.inlined = inline.inline_new_helpers(self.tree, name)
@@ -361,15 +361,45 @@ class Repo:
         self.consulted[m.relpath] = m.digest
         return m
 
+    def _imported_from(self, modname: str, name: str) -> Optional[str]:
+        """the module of this repository from which `modname` imports the top-level name `name` (a function or constant that
+        was moved to another module of the package and is imported back under its old name), or None"""
+        m = self.modules.get(modname)
+        if m is None:
+            return None
+        pkg = modname.rsplit(".", 1)[0] if "." in modname else modname
+        for st in m.tree.body:
+            if isinstance(st, ast.ImportFrom) and any((a.asname or a.name) == name for a in st.names):
+                if st.level:
+                    base = modname.split(".")
+                    base = base[: len(base) - st.level] if not m.path.endswith("__init__.py") else base[: len(base) - st.level + 1]
+                    target = ".".join(base + ([st.module] if st.module else []))
+                else:
+                    target = st.module or ""
+                orig = next(a.name for a in st.names if (a.asname or a.name) == name)
+                if target in self.modules:
+                    return f"{target}:{orig}"
+        return None
+
     def func(self, qual: str) -> Func:
         f = self.funcs.get(qual)
+        if f is None and ":" in qual and "." not in qual.split(":", 1)[1]:
+            # a top-level function that moved to another module of the repository and is imported back
+            moved = self._imported_from(*qual.split(":", 1))
+            if moved is not None:
+                f = self.funcs.get(moved)
         if f is None:
             raise AnchorError(f"function {qual} not found")
         self.consulted[f.module.relpath] = f.module.digest
         return f
 
     def has_func(self, qual: str) -> bool:
-        return qual in self.funcs
+        if qual in self.funcs:
+            return True
+        if ":" in qual and "." not in qual.split(":", 1)[1]:
+            moved = self._imported_from(*qual.split(":", 1))
+            return moved is not None and moved in self.funcs
+        return False
 
     def cls(self, qual: str) -> ast.ClassDef:
         c = self.classes.get(qual)
@@ -437,6 +467,11 @@ class Repo:
         """Follow NAME = OTHER chains inside one module."""
         env = self.module_assigns(modname)
         cur: Optional[ast.AST] = env.get(name)
+        if cur is None:
+            moved = self._imported_from(modname, name)
+            if moved is not None:
+                m2, n2 = moved.split(":", 1)
+                return self.resolve_const(m2, n2, depth)
         while depth and isinstance(cur, ast.Name) and cur.id in env:
             cur = env[cur.id]
             depth -= 1
